@@ -1205,3 +1205,82 @@ def upstream_states_are_completed_states(ctx, rule):
     if n < 3:
         raise AnalysisError('upstream task queries of the direct controller '
                             'lost (%d)' % n)
+
+
+def cas_primitive_reports_loss(ctx, rule):
+    """db api update_on_match is the compare-and-swap every state change,
+    job capture and trigger advance rests on.  The caller learns that it
+    lost only from the return value: what is returned is the result of the
+    conditional UPDATE, or None when no row matched - never a row obtained
+    some other way (a re-read that "already has the values" makes the loser
+    of a race act as the winner: effects run twice)."""
+    prog = ctx.prog
+    f = prog.func('mistral.db.v2.sqlalchemy.api.update_on_match')
+    cfg = ctx.cfg(f)
+    rets = [n for n in cfg.nodes if n.kind == 'stmt' and
+            isinstance(n.ast, ast.Return)]
+    ok = bool(rets)
+    why = 'no return'
+    for n in rets:
+        v = n.ast.value
+        vals = [v]
+        if isinstance(v, ast.Name):
+            vals = list(U.reaching_defs(cfg, v.id)[n.id])
+        for d in vals:
+            good = (isinstance(d, ast.Constant) and d.value is None) or (
+                isinstance(d, ast.Call) and
+                isinstance(d.func, ast.Attribute) and
+                d.func.attr == 'update_on_match')
+            if not good:
+                ok = False
+                why = 'returns %s' % (norm(d) if not isinstance(d, str)
+                                      else d)
+    # the conditional update is told what to expect and what to write
+    calls = [c for c in own_nodes(f.node) if isinstance(c, ast.Call) and
+             isinstance(c.func, ast.Attribute) and
+             c.func.attr == 'update_on_match']
+    okc = len(calls) == 1 and \
+        norm(U.kwarg(calls[0], 'specimen') or ast.Constant(0)) == \
+        f.params[1] and \
+        norm(U.kwarg(calls[0], 'values') or ast.Constant(0)) == f.params[2]
+    rule.check(ok and okc, ctx.construct(f, extra='None when no row matched'),
+               'update_on_match can return a row although the conditional '
+               'UPDATE matched nothing (%s): the loser of a compare-and-swap '
+               'is told it won' % why, ctx.loc(f))
+
+
+def retried_functions_rerunnable(ctx, rule):
+    """@retry_on_db_error runs the whole function again after a deadlock /
+    lost connection.  That is only the same as running it once when the
+    function starts from what it was given: a function that has changed the
+    object it was handed (`t.remaining_executions -= 1`) before the DB call
+    that failed sees its own change on the second run."""
+    prog = ctx.prog
+    n = 0
+    for q, f in sorted(prog.funcs.items()):
+        if '.tests.' in q or not f.has_decorator('retry_on_db_error'):
+            continue
+        n += 1
+        params = set(f.params) - {'self', 'cls'}
+        bad = []
+        for x in own_nodes(f.node):
+            tg = []
+            if isinstance(x, ast.AugAssign):
+                tg = [x.target]
+            elif isinstance(x, ast.Assign):
+                tg = x.targets
+            for t in tg:
+                if isinstance(t, (ast.Attribute, ast.Subscript)):
+                    root = t
+                    while isinstance(root, (ast.Attribute, ast.Subscript)):
+                        root = root.value
+                    if isinstance(root, ast.Name) and root.id in params:
+                        bad.append(x)
+        rule.check(not bad, ctx.construct(f, extra='re-runnable'),
+                   'the function is retried as a whole on DB errors but '
+                   'changes the object it was given in place (%s): a retry '
+                   'applies the change twice'
+                   % (norm(bad[0]) if bad else ''),
+                   ctx.loc(f, bad[0] if bad else None))
+    if n < 10:
+        raise AnalysisError('only %d functions with retry_on_db_error' % n)
